@@ -142,7 +142,7 @@ PROPS = {
     "C07": dict(proj=proj_order, gen={}, hist="some", ids="mostly_test",
                 nontrivial=lambda st, case: st.get("tasks_started", 0) >= 2 and st.get("services_started", 0) >= 2,
                 rule=">= 2 task instances and >= 2 service instances"),
-    "C08": dict(proj=proj_c08, gen={}, hist=True,
+    "C08": dict(proj=proj_c08, gen={}, hist=True, ids="mostly_test",
                 nontrivial=lambda st, case: st.get("junk_calls", 0) >= 1,
                 rule=">= 1 junk / duplicate / repeated-start call in the history"),
     "C14": dict(proj=proj_full, gen={"focus": ["cloop", "call"]}, hist="some", ids="both",
@@ -486,6 +486,115 @@ def job_register_in_callback(args):
         signal.alarm(0)
 
 
+def job_callable_kinds(args):
+    """C20, directed: the kinds of callables an application registers - a plain function, a lambda, a bound method of an
+    object the application keeps, a bound method of an object NOBODY else references (the application relies on the
+    scheduler to keep its listeners), a functools.partial, an instance with __call__ - each registered once, some of them
+    a second time (refused: reported False, no exception), then the order is run: every one of them is invoked exactly once
+    per notification of its kind, in registration order"""
+    import functools
+    import gc
+    import impl
+
+    seed, = args
+    rng = random.Random(seed)
+    signal.signal(signal.SIGALRM, _alarm)
+    signal.alarm(60)
+    try:
+        prog = progs.gen_program(rng, depth=2, ploops=False)
+        text = progs.print_program(prog, indent=4)
+        answers = sc.Answers(random.Random(seed + 1))
+        run = impl.Run(text, ids="test", answers=answers)
+        if run.s is None or not run.valid:
+            return {"seed": seed, "skip": True}
+        kind = rng.choice(["ts", "ss", "sf", "tf"])
+        reg = {"ts": run.s.register_callback_task_started, "tf": run.s.register_callback_task_finished,
+               "ss": run.s.register_callback_service_started, "sf": run.s.register_callback_service_finished}[kind]
+        for k in ("ts", "ss", "sf", "tf"):
+            run.register(k, 0)
+        calls = []  # (label, uuid) in invocation order
+
+        class Holder:
+            def __init__(self, label):
+                self.label = label
+
+            def on_event(self, api):
+                calls.append((self.label, api.uuid))
+
+        class CallableObject:
+            def __init__(self, label):
+                self.label = label
+
+            def __call__(self, api):
+                calls.append((self.label, api.uuid))
+
+        def plain(api):
+            calls.append(("function", api.uuid))
+
+        def for_partial(label, api):
+            calls.append((label, api.uuid))
+
+        kept = Holder("kept-method")
+        makers = {
+            "function": lambda: plain,
+            "lambda": (lambda f=(lambda api: calls.append(("lambda", api.uuid))): f),
+            "kept-method": lambda: kept.on_event,
+            "unreferenced-method": lambda: Holder("unreferenced-method").on_event,
+            "partial": (lambda f=functools.partial(for_partial, "partial"): f),
+            "callable-object": (lambda o=CallableObject("callable-object"): o),
+        }
+        labels = list(makers)
+        rng.shuffle(labels)
+        labels = labels[: rng.randint(3, 6)]
+        problems = []
+        order = []
+        for lb in labels:
+            try:
+                r = reg(makers[lb]())
+            except Exception as ex:  # noqa: BLE001
+                problems.append("registering a %s raised %s" % (lb, type(ex).__name__))
+                continue
+            if r is not True:
+                problems.append("the first registration of a %s reported %r" % (lb, r))
+            order.append(lb)
+            gc.collect()
+            if lb != "unreferenced-method" and rng.random() < 0.6:
+                # the same callable once more: refused
+                try:
+                    r2 = reg(makers[lb]())
+                    if r2 is not False:
+                        problems.append("the repeated registration of the same %s reported %r, expected False" % (lb, r2))
+                except Exception as ex:  # noqa: BLE001
+                    problems.append("the repeated registration of a %s raised %s instead of reporting False" % (lb, type(ex).__name__))
+        gc.collect()
+        c = run.start()
+        n = 0
+        while run.pending and n < 25 and not c.get("exc"):
+            c = run.complete(rng.choice(run.pending))
+            n += 1
+            if n % 3 == 0:
+                gc.collect()
+        if c.get("exc") and c["exc"] != "RecursionError":
+            problems.append("a call raised %s" % c["exc"])
+        # the harness's own listener (fn 0) saw these notifications of the kind, in order
+        seen = [e[5] for cc in run.calls for e in cc["out"] if e[0] == "INV" and e[1] == kind and e[2] == 0]
+        expected = [(lb, u) for u in seen for lb in order]
+        if not problems and calls != expected:
+            got = {}
+            for lb, u in calls:
+                got[lb] = got.get(lb, 0) + 1
+            miss = [lb for lb in order if got.get(lb, 0) != len(seen)]
+            if miss:
+                problems.append("%d %s notifications: the registered %s was invoked %d times" % (len(seen), kind, miss[0], got.get(miss[0], 0)))
+            else:
+                problems.append("the callables registered for %s notifications were not invoked in registration order %r" % (kind, order))
+        return {"seed": seed, "text": text, "problems": problems[:2], "plan": [kind, order], "notifications": len(seen)}
+    except CaseTimeout:
+        return {"seed": seed, "skip": True}
+    finally:
+        signal.alarm(0)
+
+
 def job_observer_completion(args):
     """C08, directed: the execution engine learns about a started service from the LOG entry delivered to an attached
     observer and reports it finished from inside update(): the service has been announced, so the report is accepted
@@ -573,6 +682,14 @@ def job_variants(case):
             res0, _ = sc.run_impl(copy.deepcopy(case))
             if res3.get("valid") and [c["exc"] for c in res3["calls"]] == [c["exc"] for c in res0["calls"]] and len(res3["calls"]) == len(res0["calls"]):
                 case = c3
+        if case.get("_tail_comment"):
+            # a last line that is a comment naming a file (a generated program says where it came from)
+            c3 = copy.deepcopy(case)
+            c3["text"] = case["text"].rstrip("\n") + "\n# generated from templates/painting_line_2.pfdl" + ("\n" if case.get("seed", 0) % 2 else "")
+            res3, _ = sc.run_impl(copy.deepcopy(c3))
+            res0, _ = sc.run_impl(copy.deepcopy(case))
+            if res3.get("valid") and [c["exc"] for c in res3["calls"]] == [c["exc"] for c in res0["calls"]] and len(res3["calls"]) == len(res0["calls"]):
+                case = c3
         for name, delta in variants:
             c2 = copy.deepcopy(case)
             for k, v in delta.items():
@@ -622,7 +739,17 @@ def run_with_others(case, ids="uuid"):
         for op in sc.DEFAULT_PRELUDE:
             sc.apply_op(o, op)
     cross_accepted = []
+    small_text = "Task productionTask\n    OtherService\nEnd\n"
     for op in case["ops"]:
+        if rng.random() < 0.25:
+            # yet another order of the same process: a SMALL one (one service), created, started and finished in between
+            tiny = impl.Run(small_text, ids=ids, answers=oth_ans)
+            if tiny.s is not None and tiny.valid:
+                for op2 in sc.DEFAULT_PRELUDE:
+                    sc.apply_op(tiny, op2)
+                tiny.start()
+                if tiny.pending and rng.random() < 0.7:
+                    tiny.complete(tiny.pending[0])
         # poke the others in between
         for o in others:
             r = rng.random()
@@ -947,6 +1074,7 @@ def _run(ctx, cfg, n_cases, pool, res):
             r["case"]["_draw"] = bool(small and cond_cmp.search(r["case"]["text"]) and ncmp < (4 if tier == "quick" else 40))
             ncmp += int(r["case"]["_draw"])
             r["case"]["_tabs"] = (i % 3 == 1)
+            r["case"]["_tail_comment"] = (i % 3 == 2)
         for i, r in enumerate(sub):
             small = sum(len(c["out"]) for c in r["calls"]) < 50
             if not r["case"]["_draw"]:
@@ -1005,6 +1133,19 @@ def _run(ctx, cfg, n_cases, pool, res):
                                                          "text": r["text"], "job_seed": r["seed"], "plan": r["plan"],
                                                          "how": "re-run: tools/sched_family.job_register_in_callback((job_seed,))"}})
         res["notes"].append("registration from inside callbacks: %d runs in which it happened, %d later notifications checked" % (nreg, nlater))
+        nck = nnot = 0
+        for r in pool.map(job_callable_kinds, [(seed * 17 + i,) for i in range(60 if tier == "quick" else 600)], chunksize=2):
+            if r.get("skip"):
+                continue
+            nck += 1
+            nnot += r.get("notifications", 0)
+            if r["problems"] and "callable_kinds" not in seen_rules:
+                seen_rules.add("callable_kinds")
+                res["violations"].append({"rule": "callable_kinds", "msg": r["problems"][0] + " (plan %r)" % (r["plan"],),
+                                          "replay_obj": {"property": prop, "family": "sched", "rule": "callable_kinds", "message": r["problems"][0],
+                                                         "text": r["text"], "job_seed": r["seed"], "plan": r["plan"],
+                                                         "how": "re-run: tools/sched_family.job_callable_kinds((job_seed,))"}})
+        res["notes"].append("kinds of callables (function, lambda, kept / unreferenced bound method, partial, callable object): %d runs, %d notifications" % (nck, nnot))
     # C08: completion reported from inside an observer's update() ---------------------------------------
     if prop in ("C08", "C01", "C02"):
         nobs = 0
